@@ -4,6 +4,42 @@ import json, os, sys
 ROOT = os.path.dirname(os.path.dirname(os.path.abspath(__file__)))
 
 CHECKS = {
+ "C01": ("exploration", "runtime oracle on verifier decisions: honest proofs of real store histories must verify (completeness); responses altered by ~190 single and combined mutation operators must not verify unless the claim they make is still true (soundness, judged by the accepted claim against a ledger); the unmodified client code is driven through a tamper layer",
+         "Held on the histories and alterations executed: real store histories (1-40 txs quick, up to 300 thorough; header v0/v1, KV and tx metadata, lagging binary linking fed through ReplicateTx), all trusted/proven pairs when n<=40, ~0.8 M (quick) mutated verifications of VerifyDualProof/V2, VerifyLinearProof, VerifyLinearAdvanceProof, VerifyInclusion incl. self-consistent forgeries re-derived from a reference Merkle tree, and the real immuClient VerifiedGet/Set/TxByID/SetReference/ZAdd against an in-process database behind a protoreflect tamper layer.",
+         "SHA-256; a false target that is a possible fork after the trusted tx is not held against the verifier; freshness and unauthenticated fields (revision, expired) are outside the statement; VerifiedSQLGet / document proofs are covered by C19 only.", "DESIGN.md 2/C01"),
+ "C05": ("exploration", "runtime monitoring: logged transaction programs under concurrency, replayed offline in commit (header id) order on a multi-version map; every logged read of a committed RW tx must equal the read on S[id-1] plus own writes; conflicted/cancelled txs must leave no trace; read-only txs must be explained by one committed state per index",
+         "Held on the schedules produced: 16 cases x ~19 rounds (quick; 400 cases thorough) of 4-8 RW goroutines + write-only committers + readers over 8-24 keys in 1-2 indexes, all read shapes of the API (point, filtered, prefix with exclusion, key readers asc/desc/seek/end/offset/reset/early stop/ReadBetween, prefix fingerprints), stale snapshots, hook-point perturbation, background flush/compaction; final index history compared with the model.",
+         "Interleavings are those the Go scheduler and the verifhook points produce; spurious conflicts are counted, not judged; not-found vs expired answers are equal (ErrExpiredEntry wraps ErrKeyNotFound).", "DESIGN.md 2/C05"),
+ "C06": ("exploration", "runtime monitoring of recorded client histories: porcupine linearizability check per key (version-list model incl. preconditions) + commit-order checker (real-time order, every read equals one state inside its call/return window, one state for all keys of a multi-key read, conditional writes judged on S[t-1])",
+         "Held on the histories recorded: 400 rounds quick / 10 000 thorough of 4-16 clients x 16 operation kinds of pkg/database.DB (Set, multi-key Set, conditional Set, Delete, ExecAll, SetReference, ZAdd, Get incl. SinceTx/AtTx/AtRevision, GetAll, Scan, ZScan, History, Count) with unique values, tickets taken before call and after reply, background flush/compaction and hook perturbation.",
+         "The lower bound of a read window is the committed frontier at call time (the default waiting semantics); porcupine timeouts are inconclusive; NoWait reads are outside the property.", "DESIGN.md 2/C06"),
+ "C10": ("exploration", "runtime differential against a multi-version ordered map: PRNG operation sequences on the real tbtree, every answer (tree, snapshots frozen at their Ts, readers, history) compared; snapshots re-queried after every later mutation; reopen and compact+reopen compared",
+         "Held on the sequences executed: 40 x 400 ops quick / 300 x 1500 thorough with minimal node sizes (depth up to ~20), keys at the size limit, 1-node caches, tiny files, all ReaderSpec combinations, FlushWith(any cleanup, sync), Compact, close/reopen with re-drawn options, thorough adds reader goroutines on open snapshots and background compaction.",
+         "One writer (the API's contract); errors that are part of the API are predicted only where unambiguous; per-key history listing is capped to keep the oracle affordable.", "DESIGN.md 2/C10"),
+ "C11": ("exploration", "runtime metamorphic monitoring: the same DML history on a twin table without secondary indexes, forced USE INDEX plans, ternary partition by a predicate, in-tx vs committed vs reopened, ORDER BY sortedness under a harness comparator; results of two executions of immudb itself are compared",
+         "Held on the schemas and queries executed: 30 schemas x 60 queries x ~5 relations quick (1500 schemas thorough): all column types, nullable columns, composite/unique/late indexes, insert/upsert/on-conflict/update/delete/multi-statement txs, comparisons, ranges, IN, LIKE, IS NULL, boolean combinations, ORDER BY 1-3 columns, LIMIT/OFFSET under a total order, DISTINCT, GROUP BY with aggregates, joins, subqueries, historical queries; the access path of each side is recorded.",
+         "No hand-written SQL semantics: only relations between executions; float aggregates, -0.0/+0.0 and far timestamps (known C15 findings) and NaN are not generated; an error on both sides of a relation is not judged.", "DESIGN.md 2/C11"),
+ "C12": ("exploration", "runtime invariant monitoring: concurrent sessions run constraint-hostile DDL/DML; after commits a read-only scan checks PK/unique distinctness, NOT NULL, CHECK (engine and harness evaluators), lengths, generated keys; a permissive model applies committed transactions in store tx order and checks that no certainly-violating statement committed and that contents equal the model (atomicity)",
+         "Held on the programs executed: 60 programs quick / 3000 thorough, 1-8 sessions, autocommit / implicit / BEGIN..COMMIT / stepwise transactions, ~45 % of statements aimed at one constraint (duplicate PK or unique tuple, NULL into NOT NULL, CHECK false, over-long value, wrong type, PK update, explicit auto-increment key), concurrent and quiescent DDL, hook perturbation in a third of the programs.",
+         "NULL semantics in unique indexes and the engine's extra rule on explicit auto-increment keys are left to the engine (either outcome accepted); only committed state is judged.", "DESIGN.md 2/C12"),
+ "C13": ("exploration", "runtime monitoring against a reference interpreter of the generated SQL subset: per statement rows / affected-row counts / generated keys / error class; committed txs replayed in header-id order; uncommitted and read-only txs must be explained by one committed state in their window; final contents equal committed txs only; dead handles probed with Commit",
+         "Held on the programs executed: 150 cases quick / 5000 thorough of 1-6 concurrent sessions x 4-8 transaction programs (insert, multi-row insert, upsert, update, delete, select, count, hinted index scans, injected failures, SAVEPOINT / ROLLBACK TO / RELEASE nested to 3, commit / rollback / cancel, read-only sessions) through the engine API.",
+         "The generated subset only (integer PK, INTEGER/VARCHAR/BOOLEAN columns, NULL-unambiguous predicates); DDL inside transactions and the pkg/server session / PostgreSQL wire front-ends are not driven.", "DESIGN.md 2/C13"),
+ "C14": ("exploration", "runtime monitoring against a ledger: after every truncation cut (copies, in place racing writers/readers, gated schedules via hook points) every tx is re-read (headers, proofs, exports for all ids; values, Get, History for ids >= cut); non-termination decided from goroutine state in two dumps, never from elapsed time; database-level truncation followed by restart and SQL/document use",
+         "Held on the histories executed: 12 histories x all cuts quick / 400 thorough with 1-8 committers and hook delays after the value append (values out of id order), IO concurrency 1-4, file size 256 B-4 KiB, value cache 0/8/64, empty values first/middle/last/all, single/repeated/concurrent truncation, restart; ~570 truncations and ~1700 truncated txs observed per quick run.",
+         "A hang is a violation only if the goroutines involved are parked on the same lock in two dumps 2 s apart; anything else that does not return is inconclusive.", "DESIGN.md 2/C14"),
+ "C16": ("exploration", "runtime monitoring of decoding entry points in child processes: structure-aware mutations of valid encodings (every length/count/tag/flag field, truncation at every byte, bit flips) and random bytes; oracle = no panic (recover + process death attributed to the input), confirmed hang, allocation delta <= 256 MiB, no partial effect of ReplicateTx",
+         "Held on the inputs executed (~300 k quick): TxHeader/TxMetadata.ReadFrom, appendable metadata, ReplicateTx on a live replica, singleapp/multiapp/store/ahtree/tbtree Open + reads on mutated files, schema.*FromProto + verifiers on proto messages mutated through protoreflect, SQL parser, pgsql message parsers, stream receivers.",
+         "Executing arbitrary SQL is outside the deciding set; an allocation bounded by a declared limit passes; a slow Open with a huge persisted option is inconclusive.", "DESIGN.md 2/C16"),
+ "C17": ("exploration", "runtime differential against a byte-slice model: PRNG operation sequences on singleapp and multiapp (all compression formats, chunk 64 B-64 KiB, write buffer 16 B-8 KiB, retryable x auto sync, prealloc, MaxOpenedFiles 1-3) with injected write/fsync faults via verifhook and reader goroutines during appends",
+         "Held on the sequences executed: 300 x 300 ops quick / 12 000 sequences thorough: Append returns the model length, ReadAt returns the model bytes, SetOffset truncates, reopen and Copy find the same bytes/metadata/size, DiscardUpto leaves [off,size) intact, failed-then-retried flush/sync keeps the bytes.",
+         "The strict n/EOF contract of ReadAt is enforced only when no bytes can physically sit beyond the logical end; compressed reads are addressed at entry offsets.", "DESIGN.md 2/C17"),
+ "C18": ("exploration", "runtime monitoring of the real server over bufconn: full matrix method (discovered at run time from the gRPC service descriptors) x role x database selection x session state; oracle = digests of every database, its settings and the user table before/after each call + class rules given by the harness from the API's meaning",
+         "Held on the matrix executed: 93 methods (all with a request builder) x {none,R,RW,Admin,SysAdmin} x {own,other,systemdb,none} x {no credentials, token, session, expired, deactivated, permission changed, two logins} = ~13 k cells, the permitted role exercised for every cell; thorough repeats with other request contents and adds calls in flight while the sysadmin deactivates or re-permissions the user.",
+         "Method classes come from the harness (what the RPC does), not from permissions.go; filtered listings are not violations; CompactIndex/TruncateDatabase builders fail on state for the permitted role and count as trivial cells.", "DESIGN.md 2/C18"),
+ "C19": ("exploration", "runtime metamorphic + model monitoring: twin collections (with/without indexes, indexes added and removed over time) must answer every search and count identically; a three-valued harness evaluator judges only definite cases; unique indexes, id lookup, audit trail, document proofs under 28 tamper operators judged by the claim",
+         "Held on the collections executed: 40 cases x 80 operations quick / 2000 thorough through document.Engine and pkg/database: inserts, batch inserts, replace/delete by id and by query, AddField/RemoveField, CreateIndex/DeleteIndex; nested JSON, missing/null fields, numeric edges, unicode, strings around the 512-byte limit; OR of AND groups, all eight operators, ordering and paging under a total order.",
+         "NULL/missing fields, LIKE, BOOLEAN/UUID ordering are left to the twin relation; -0.0/+0.0 in indexed doubles and NaN are not generated (known C15 findings).", "DESIGN.md 2/C19"),
  "C08": ("exploration", "runtime differential against an independent RFC 6962 / RFC 9162 reference: roots and proofs of the real ahtree/htree after PRNG operation sequences, and verifier decisions on honest and altered proof tuples",
          "Held on what was executed: 64 (quick) / 160 (thorough) ahtree operation sequences (append bursts with 0-300 byte payloads, ResetSize + re-append, Sync, Close/Open, cache 1 slot..default, tiny files) with Size/Root/RootAt/DataAt and all inclusion and consistency proofs for 1<=i<=j<=n compared exhaustively up to n=64 (200 thorough); htree for every width to 130 (1100) and every leaf; ~4 M (quick) verifier decisions on tuples altered by wrong index/size, dropped/extra/duplicated/flipped/reordered terms, swapped roots, other leaf.",
          "SHA-256; the strict RFC 9162 verification algorithm defines 'a correct proof for exactly the claimed positions and sizes'; a tuple valid for another tree shape is accepted by the reference too and not held against the implementation.", "DESIGN.md 2/C08"),
